@@ -3,6 +3,7 @@ package hcv
 import (
 	"fmt"
 	"go/constant"
+	"go/types"
 	"sort"
 	"strings"
 
@@ -183,7 +184,7 @@ func ruleC07_4(c *Ctx) {
 		inTree[f] = true
 	}
 	// classify the sources of every key reaching a delete
-	type src struct{ param, refID, urlKey, locRefID bool }
+	type src struct{ param, refID, urlKey, locRefID, paramRefID bool }
 	var got src
 	var delSites []string
 	for _, fn := range tree {
@@ -225,6 +226,18 @@ func ruleC07_4(c *Ctx) {
 						if fromRead {
 							got.locRefID = true
 						}
+						fromParam := false
+						c.P.TraceBack(fa.X, TraceOpts{ThroughOps: true, NoHeapFields: true}, func(w ssa.Value, _ []int) bool {
+							if pp, ok := w.(*ssa.Parameter); ok && pp.Parent() == inv {
+								if sl, ok := pp.Type().Underlying().(*types.Slice); ok && isPtrToNamed(sl.Elem(), c.A.RefT) {
+									fromParam = true
+								}
+							}
+							return !fromParam
+						})
+						if fromParam {
+							got.paramRefID = true
+						}
 						got.refID = true
 						return false
 					}
@@ -241,7 +254,7 @@ func ruleC07_4(c *Ctx) {
 			c.Fail("C07.4", key, desc, c.P.ShortName(inv)+": no delete receives such a key. "+witness, delSites...)
 		}
 	}
-	check(got.refID, "delete-variants", "every response id referenced by the target's index reaches a delete", "Only some variants are evicted; another variant is served after a successful POST")
+	check(got.refID && got.paramRefID, "delete-variants", "every response id referenced by the target's index reaches a delete", "Only some variants are evicted; another variant is served after a successful POST")
 	check(got.param, "delete-index", "the target's index key reaches a delete", "The index survives and still references the deleted entries")
 	check(got.urlKey, "delete-location-index", "the key of a Location/Content-Location target reaches a delete", "A same-origin Location target stays cached")
 	check(got.locRefID, "delete-location-variants", "the variants of a Location/Content-Location target reach a delete", "Location target variants stay cached")
